@@ -159,7 +159,18 @@ def gen_case(rng: random.Random, pid: str, uid: str) -> dict:
                 b["must_finish"] = rng.random() < 0.3
                 b["overridden"] = True
                 base_states.append(b)
-        if rng.random() < 0.3:
+        r_shape = rng.random()
+        if r_shape < 0.3 and len(sub_states) >= 1:
+            # diamond: K0 <- K1, K0 <- K2, K3(K1, K2) or K3(K2, K1).  The redefinitions of K0's states are spread over
+            # the two middle classes; whichever order the final class lists them in, a redefinition beats K0's version
+            redefs = [x for x in sub_states if any(b["name"] == x["name"] for b in base_states)]
+            fresh = [x for x in sub_states if x not in redefs]
+            cut = rng.randrange(0, len(redefs) + 1)
+            mids = [{"name": "K1", "bases": ["K0"], "states": redefs[:cut]},
+                    {"name": "K2", "bases": ["K0"], "states": redefs[cut:]}]
+            classes = [{"name": "K0", "bases": [], "states": base_states}] + mids + \
+                      [{"name": "K3", "bases": rng.choice([["K1", "K2"], ["K2", "K1"]]), "states": fresh}]
+        elif r_shape < 0.5:
             # mix-in style: the base is split once more
             classes = [{"name": "K0", "bases": [], "states": base_states},
                        {"name": "K1", "bases": ["K0"], "states": []},
@@ -196,16 +207,39 @@ def gen_case(rng: random.Random, pid: str, uid: str) -> dict:
         if s["kind"] == "timed" and rng.random() < 0.08:
             pre_nt[s["name"]] = gen_dur() if not s["dur_int"] else rng.choice([0, 1000000, 2000000])
     return {"uid": uid, "pid": pid, "auto": auto, "grid": grid, "period": period, "classes": classes,
-            "final": classes[-1]["name"], "script": script, "pre_nt": pre_nt,
+            "final": classes[-1]["name"], "script": script, "pre_nt": pre_nt, "sibling": (not auto) and rng.random() < 0.25,
             "hseed": rng.randrange(1 << 30), "ops": None}
 
 
+def spec_mro(case, name=None):
+    """C3 linearisation (Python's method resolution order) of the generated class specs."""
+    classes = {c["name"]: c for c in case["classes"]}
+
+    def lin(n):
+        bases = classes[n]["bases"]
+        seqs = [lin(b) for b in bases] + [list(bases)]
+        res = [n]
+        while any(seqs):
+            for sq in seqs:
+                if sq and not any(sq[0] in t[1:] for t in seqs):
+                    cand = sq[0]
+                    break
+            else:
+                raise ValueError("inconsistent hierarchy")
+            res.append(cand)
+            for sq in seqs:
+                if sq and sq[0] == cand:
+                    del sq[0]
+        return res
+    return [classes[n] for n in lin(name or case["final"])]
+
+
 def effective_shape(case):
-    """name -> effective definition (most derived class wins), plus definition order."""
+    """name -> effective definition: the first class in the MRO that defines the name wins."""
     eff = {}
-    for c in case["classes"]:            # bases first; later classes override
+    for c in spec_mro(case):
         for s in c["states"]:
-            eff[s["name"]] = s
+            eff.setdefault(s["name"], s)
     return eff
 
 
@@ -240,6 +274,7 @@ def _vf_body(self, name, args):
     if act:
         k = act[0]
         if k == "done":
+            self._vf_log.append(("user_done", name))
             self.done()
         else:
             tgt = getattr(type(self), act[1]) if act[2] else act[1]
@@ -288,7 +323,7 @@ def build_class(case, base_cls, suffix=""):
 class Machine:
     """One real machine instance with its log and NetworkTables side channels."""
 
-    def __init__(self, case, base_cls, nt_name):
+    def __init__(self, case, base_cls, nt_name, cls=None):
         import ntcore
         from magicbot.magic_tunable import setup_tunables
         self.inst = ntcore.NetworkTableInstance.getDefault()
@@ -296,7 +331,9 @@ class Machine:
         self.eff = effective_shape(case)
         self.pubs = {}
         self.handles = []
-        cls = build_class(case, base_cls)
+        if cls is None:
+            cls = build_class(case, base_cls)
+        self.cls = cls
         self.log = []
         # pre-existing duration values (writeDefault is False for durations: they must survive setup)
         for nm, us in case["pre_nt"].items():
@@ -471,6 +508,9 @@ class Driver:
             if r:
                 hs.stepTimingAsync(GRID - r)
         self.mach = Machine(case, AutonomousStateMachine if self.auto else StateMachine, case["uid"])
+        # a second, unchecked instance of the very same class, driven in between: whatever it does must not show in the
+        # checked instance ("two shooters on one robot")
+        self.sib = Machine(case, StateMachine, case["uid"] + "s", cls=self.mach.cls) if case.get("sibling") else None
         shape = {n: {"kind": s["kind"], "must_finish": s["must_finish"], "next": s.get("next"), "first": s["first"]}
                  for n, s in self.eff.items()}
         self.model = Model(shape, auto=self.auto, grid=case["grid"])
@@ -501,6 +541,17 @@ class Driver:
             self.mach.nt_write(op[1], op[2])
             self.dur[op[1]] = op[2]
             self.ev("op-nt-write")
+            return True
+        if k == "sib":
+            try:
+                if op[1] == "engage":
+                    self.sib.m.engage()
+                else:
+                    getattr(self.sib.m, op[1])()
+            except Exception as e:  # noqa
+                return self._diverge([{"kind": "raised", "props": {"C01", "C02", "C03", "C04"},
+                                       "detail": f"sibling instance: {op[1]} raised {e!r}"}], op)
+            self.ev("sibling-instance-op")
             return True
         now = self.now_us()
         exc = None
@@ -554,6 +605,11 @@ class Driver:
         if ok_members:
             self.model.members = ok_members
             return True
+        if self.pid != "C04":
+            # is_executing / current_state are C04's clauses: another property's check neither reports them nor lets
+            # them end the case - it goes on judging its own clauses on what the machine does next
+            self.ev("post-state-mismatch-left-to-C04")
+            return True
         mm = self.model.members[0]
         exp_cs = mm.cur.name if mm.cur is not None else ""
         div = []
@@ -591,7 +647,7 @@ class Driver:
         # ---- direct C01 clauses, judged on the observation alone
         n_now = sum(1 for e in log if e[0] == "now")
         direct = []
-        if req_before and not self.done_after_engage and not any(e[0] == "done" for e in log):
+        if req_before and not self.done_after_engage and not any(e[0] == "user_done" for e in log):
             if len(obs_calls) != 1 + n_now:
                 direct.append({"kind": "fn-count", "props": {"C01"},
                                "detail": f"engage() was called and done() was not: {len(obs_calls)} state functions ran "
@@ -620,6 +676,9 @@ class Driver:
                     continue
                 pred.stopped_before = stopped_before
                 div = compare(pred, obs_calls, n_done, now, m2, self.auto)
+                if self.pid != "C01":
+                    # a difference confined to the continuation of a next_state_now() chain is decided by C01's count rule
+                    div = [d for d in div if d["props"]]
                 branches.append((pred, m2, div))
         self.acc.checks += 1 + 3 * len(obs_calls)
         consistent = [b for b in branches if not b[2]]          # explain everything that was observed
@@ -835,6 +894,10 @@ class Driver:
                 for op in pre:
                     if not do(op):
                         return ops
+                if self.sib is not None and rng.random() < 0.6:
+                    for sop in rng.choice([["engage", "execute"], ["execute"], ["engage", "execute"], ["done"], ["engage"]]):
+                        if not do(["sib", sop]):
+                            return ops
                 if not do(["execute"]):
                     return ops
         return ops
@@ -859,6 +922,8 @@ class Driver:
 
     def close(self):
         self.mach.close()
+        if self.sib is not None:
+            self.sib.close()
 
 
 # ----------------------------------------------------------------------------- C13: twin-based driver
